@@ -35,11 +35,11 @@ prop("C18", "proof", "Coq: Send/Sync derivation over field types regenerated fro
 SRCT = (" Source tie (regenerated on every run): rs2coq (/verif/rs2coq, Rust+syn) translates the Rust functions of id.rs / node.rs / relations.rs / "
         "siblings_range.rs / arena.rs / traverse.rs (NodeStamp, Node helpers, connect_neighbors, detach_from_siblings, rewrite_parents, transplant, "
         "insert_with_neighbors, insert_last_unchecked, new_node, free_node, pop_front_free_node, clear, lookups, detach, the eight inserts, append_value, "
-        "remove, remove_subtree, next_traverse, prev_traverse) into Gallina (coq/gen/Gen{Stamp,Rel,Alloc,Ops,Trav}.v); theorems SRC_* "
-        "(coq/props/SRC{alloc,rel,ops,trav}.v, listed among this check's obligations) prove each regenerated definition equal to the hand-written model "
+        "remove, remove_subtree, get_node_id, next_traverse, prev_traverse, the iterator machines of new_iterator!, Traverse/ReverseTraverse, and the pretty printer's IndentWriter state machine) into Gallina (coq/gen/Gen{Stamp,Rel,Alloc,Ops,Trav,Print}.v); theorems SRC_* "
+        "(coq/props/SRC{alloc,rel,ops,trav,step,print}.v, listed among this check's obligations) prove each regenerated definition equal to (for the printer: a refinement of) the hand-written model "
         "function for every input and arena, so a change to one of these functions breaks a proof obligation of this check whether or not the random "
-        "histories reach it; the check then searches for a failing input.")
-SRC_PIDS = ["C01", "C02", "C03", "C04", "C05", "C06", "C07", "C08", "C09", "C11", "C12", "C13", "C14"]
+        "histories reach it; the check then searches for a failing input. Every function body that is not translated, every trait impl / derive / import, the cargo manifests and the set of source files are pinned by the INV* obligations (coq/gen/GenInventory.v, regenerated every run).")
+SRC_PIDS = ["C01", "C02", "C03", "C04", "C05", "C06", "C07", "C08", "C09", "C10", "C11", "C12", "C13", "C14", "C15"]
 
 def main():
     for pid in SRC_PIDS:
